@@ -25,6 +25,8 @@ func init() {
 			"the allocator's memory at quiescence; aliasing of *alloc values through element pointers.",
 		Run: runC01,
 		Mutants: []Mutant{
+			{Name: "additional-family-keys-exchanged", File: "controller/service.go",
+				Old: "lbIPs[0], currentPool, k8salloc.Ports(svc), SharingKey(svc), k8salloc.BackendKey(svc))", New: "lbIPs[0], currentPool, k8salloc.Ports(svc), k8salloc.BackendKey(svc), SharingKey(svc))", Expect: "ARG-ROLES"},
 			{Name: "tenant-set-dropped-on-pool-counter", File: "internal/allocator/allocator.go",
 				Old: "\t\tif a.poolIPsInUse[al.pool][ip.String()] == 0 {\n\t\t\tdelete(a.poolIPsInUse[al.pool], ip.String())\n",
 				New: "\t\tif a.poolIPsInUse[al.pool][ip.String()] == 0 {\n\t\t\tdelete(a.poolIPsInUse[al.pool], ip.String())\n\t\t\tdelete(a.servicesOnIP, ip.String())\n", Expect: "delete-servicesOnIP"},
